@@ -30,18 +30,25 @@ Definition row_v2path (r : row5) : string := snd (fst (fst r)) ++ "." ++ snd (fs
 Definition gen_table : table := map (fun r => (row_v1key r, row_v2path r)) v1_table.
 
 (* ---------------- rules ---------------- *)
+(* one rule of a RulesBasedSampler: name / rate / drop / conditions as one canonical text, and the sampler nested in
+   the rule (type "" = none) with its integer parameters *)
+Record rule := { ru_text : string; ru_sub_type : string; ru_sub_params : list (string * Z) }.
 Record section := { se_name : string; se_type : string;      (* "" = the section has no Sampler key *)
                     se_params : list (string * Z); se_fields : list string;
-                    se_rules : list string }.      (* RulesBasedSampler: one canonical text per rule, in order *)
+                    se_rules : list rule }.        (* RulesBasedSampler: the rules in order *)
 Definition second : Z := 1000000000%Z.
 Definition conv_param (p : string * Z) : string * Z :=
   if String.eqb (fst p) "ClearFrequencySec" then ("ClearFrequency", (snd p * second)%Z)
   else if String.eqb (fst p) "AdjustmentInterval" then ("AdjustmentInterval", (snd p * second)%Z)
   else p.
+(* a sampler nested in a rule goes through the same key fix-ups as a top-level one (transformSamplerMap recurses
+   into the elements of the rule array) *)
+Definition conv_rule (r : rule) : rule :=
+  {| ru_text := ru_text r; ru_sub_type := ru_sub_type r; ru_sub_params := map conv_param (ru_sub_params r) |}.
 Definition conv_section (name : string) (s : section) : section :=
   {| se_name := name;
      se_type := if String.eqb (se_type s) "" then "DeterministicSampler" else se_type s;
-     se_params := map conv_param (se_params s); se_fields := se_fields s; se_rules := se_rules s |}.
+     se_params := map conv_param (se_params s); se_fields := se_fields s; se_rules := map conv_rule (se_rules s) |}.
 Definition has_sampler (s : section) : bool := negb (String.eqb (se_type s) "").
 Definition convert_rules (dflt : section) (ds : list section) : list section :=
   conv_section "__default__" dflt :: map (fun s => conv_section (se_name s) s) (filter has_sampler ds).
